@@ -29,7 +29,7 @@ def f(a, b=2, *c, d=4, **e):
     x = a + b
     if x > 3:
         for i in range(x):
-            y = (i, "s", 1.5, None)
+            y = (i, "s", 1.5, None, len(str(abs(i))))
             if i in {1, 2, 3}:
                 continue
         return y
